@@ -25,6 +25,9 @@ pub struct Write {
     pub budget: Option<u64>,
     pub running: bool,
     pub ply: Depth,
+    pub virtual_ms: Option<u64>,
+    pub timer: Option<u128>,
+    pub time_control: bool,
 }
 
 pub static RECORDER: Mutex<Option<Vec<Write>>> = Mutex::new(None);
@@ -32,6 +35,31 @@ pub static CACHE_OFF: AtomicBool = AtomicBool::new(false);
 /// 0 = never; k > 0 = the k-th poll of `is_running` finds the flag cleared
 pub static STOP_AT_POLL: AtomicU64 = AtomicU64::new(0);
 pub static POLLS: AtomicU64 = AtomicU64::new(0);
+
+/// Virtual clock: 0 = the real clock; d > 0 = `elapsed()` reads (number of clock consultations so far) / d milliseconds,
+/// so that a game-clock limit expires at a reproducible point of the search
+pub static VCLOCK_DIV: AtomicU64 = AtomicU64::new(0);
+pub static VCLOCK_CALLS: AtomicU64 = AtomicU64::new(0);
+
+pub fn clock(start: Instant) -> Instant {
+    let div = VCLOCK_DIV.load(Ordering::Relaxed);
+    if div == 0 {
+        return start;
+    }
+    let c = VCLOCK_CALLS.fetch_add(1, Ordering::Relaxed);
+    Instant::now() - std::time::Duration::from_millis(c / div)
+}
+
+/// the virtual time the most recent clock consultation saw
+pub fn virtual_ms() -> Option<u64> {
+    let div = VCLOCK_DIV.load(Ordering::Relaxed);
+    let c = VCLOCK_CALLS.load(Ordering::Relaxed);
+    if div == 0 || c == 0 {
+        None
+    } else {
+        Some((c - 1) / div)
+    }
+}
 
 pub fn on_insert(s: &Search, site: u8, key: ZKey, entry: TTEntry) {
     if let Some(v) = RECORDER.lock().unwrap().as_mut() {
@@ -43,6 +71,12 @@ pub fn on_insert(s: &Search, site: u8, key: ZKey, entry: TTEntry) {
             budget: s.limits.nodes,
             running: s.running.load(Ordering::Relaxed),
             ply: s.info.depth,
+            virtual_ms: virtual_ms(),
+            timer: s.limits.time_management_timer,
+            time_control: s.limits.white_time.is_some()
+                || s.limits.black_time.is_some()
+                || s.limits.white_increment.is_some()
+                || s.limits.black_increment.is_some(),
         });
     }
 }
